@@ -9,6 +9,8 @@ def guardCalled : Bool := true
 
 def inlineGuard : Bool := true
 
+def inlineSamplingGuard : Bool := true
+
 /-- (domain, name) of every schema with a `seed` attribute or a sampling name. -/
 def sampling : List (String × String) :=
   [("", "Bernoulli"), ("", "Dropout"), ("", "Multinomial"), ("", "RandomNormal"), ("", "RandomNormalLike"), ("", "RandomUniform"), ("", "RandomUniformLike")]
